@@ -22,5 +22,6 @@ for p in $(cd harness && ls -d */ | tr -d /); do
 done
 # Lean: models, lemmas, property theorems, drivers
 python3 -m checks.facts
+python3 -c "from checks import c15_flow; c15_flow.generate_only()"
 (cd lean && lake build)
 echo setup done
